@@ -89,9 +89,10 @@ def run_case(ctx, P, stream, idx):
         dry = r.random() < 0.5
         recursive = r.random() < 0.5
         sa_sub = emit.startswith("sqlalchemy") and r.random() < 0.6
-        where = r.choice(("outside", "outside", "inside", "nested-absent"))
+        where = r.choice(("outside", "outside", "inside", "nested-absent", "named-gold"))
         out = {"outside": os.path.join(case_dir, "out"), "inside": os.path.join(purelib, pkg, "_generated"),
-               "nested-absent": os.path.join(case_dir, "a", "b", "out")}[where]
+               "nested-absent": os.path.join(case_dir, "a", "b", "out"),
+               "named-gold": os.path.join(case_dir, "x", "gold")}[where]  # the default target module name is `gold`
         pre_exists = where != "nested-absent" and r.random() < 0.6
         if pre_exists:
             os.makedirs(out)
@@ -166,8 +167,12 @@ def run_case(ctx, P, stream, idx):
                 p_ = os.path.dirname(p_)
             outside = [p for p in changed if not (p == rel_out + "/" or p.startswith(rel_out + "/") or p in parents)]
             if outside:
-                dev("real-run-escaped-output-dir", "paths outside the output directory changed: %r" % outside[:6],
-                    paths=outside[:20])
+                gold_parent_init = os.path.relpath(os.path.join(os.path.dirname(out), "__init__.py"), root)
+                mech = ""
+                if where == "named-gold" and set(outside) <= {gold_parent_init}:
+                    mech = "exmod.output-dir-named-like-target-module-writes-parent-init|"
+                P.deviation(mech + "exmod.real-run-escaped-output-dir|%s" % feats,
+                            "paths outside the output directory changed: %r" % outside[:6], dict(w, paths=outside[:20]))
             after_src = fsnap.snapshot(os.path.join(purelib, pkg))
             if where == "inside":
                 after_src = {k: v for k, v in after_src.items() if not k.startswith("_generated") and k != "./"}
@@ -180,7 +185,12 @@ def run_case(ctx, P, stream, idx):
             esc = [e for e in events if e["event"] == "open-for-write" and not os.path.realpath(
                 os.path.join(case_dir, e["path"])).startswith(os.path.realpath(out))]
             if esc:
-                dev("real-run-write-outside", "write-mode open outside the output directory: %r" % esc[:3], events=esc[:10])
+                gold_init = os.path.realpath(os.path.join(os.path.dirname(out), "__init__.py"))
+                mech = ""
+                if where == "named-gold" and all(os.path.realpath(os.path.join(case_dir, e["path"])) == gold_init for e in esc):
+                    mech = "exmod.output-dir-named-like-target-module-writes-parent-init|"
+                P.deviation(mech + "exmod.real-run-write-outside|%s" % feats,
+                            "write-mode open outside the output directory: %r" % esc[:3], dict(w, events=esc[:10]))
             # every generated .py parses and its __all__ names resolve
             gen_files = [p for p in diff["created"] + diff["modified"] if p.endswith(".py")]
             for p in gen_files:
